@@ -674,6 +674,9 @@ func (d *Driver) Apply(o *Op) (resp Resp) {
 	case "GC":
 		d.GCPass(time.Duration(o.Adv))
 		return Resp{Code: "OK"}
+	case "Advance":
+		vtime.Advance(time.Duration(o.Adv))
+		return Resp{Code: "OK"}
 	}
 	panic("driver: unknown op " + o.Kind)
 }
